@@ -29,5 +29,13 @@ def put(s,tag,body):
     if a not in s: return s
     i=s.index(a)+len(a); j=s.index(b)
     return s[:i]+"\n"+body+s[j:]
-s=put(s,"findings",findings); s=put(s,"seeds",seeds)
+cov=["| property | quick: cases / distinct non-trivial / wall (s) | phases (quick sizes) | exhaustive sub-spaces | extra stages |","|---|---|---|---|---|"]
+for f in sorted(glob.glob(ROOT+'/evidence/C*.json')):
+    e=json.load(open(f)); c=e['coverage']
+    if e.get('tier')!='quick': continue
+    ph=", ".join(f"{x['name']} {x['cases']}" for x in c.get('phases',[]))
+    ex="; ".join(esc(x['subspace'])[:90] for x in c.get('exhaustive_subspaces',[])[:3])
+    cov.append(f"| {e['property_id']} | {c['evaluations']} / {c['distinct_nontrivial']} / {e['wall_s']} | {esc(ph)[:230]} | {ex[:300]} | {', '.join(c.get('extra_stages',[]))} |")
+coverage="\n".join(cov)+"\n"
+s=put(s,"findings",findings); s=put(s,"seeds",seeds); s=put(s,"coverage",coverage)
 open(p,'w').write(s); print("findings",len(d),"seeds",len(rows)-2)
